@@ -145,6 +145,11 @@ func (vc *VC) effectsOfNode(eff *Effects, pkg *Pkg, n ast.Node, s tsubst, visiti
 	}
 	_ = readExpr
 	ast.Inspect(n, func(n ast.Node) bool {
+		if vc.pruneTerminal {
+			if b, ok := n.(*ast.BlockStmt); ok && endsInReturn(b, info) {
+				return false
+			}
+		}
 		switch e := n.(type) {
 		case *ast.AssignStmt:
 			for _, l := range e.Lhs {
@@ -510,4 +515,26 @@ func stdEffects(vc *VC, full string, info *types.Info, c *ast.CallExpr, s tsubst
 		return e, true
 	}
 	return nil, false
+}
+
+// endsInReturn: the block's last statement is a return or a panic call, so
+// control never continues after it (used to exclude such blocks from the
+// modified-set of an enclosing loop: they cannot reach the loop head again).
+func endsInReturn(b *ast.BlockStmt, info *types.Info) bool {
+	if len(b.List) == 0 {
+		return false
+	}
+	switch l := b.List[len(b.List)-1].(type) {
+	case *ast.ReturnStmt:
+		return true
+	case *ast.ExprStmt:
+		if c, ok := l.X.(*ast.CallExpr); ok {
+			if id, ok := c.Fun.(*ast.Ident); ok {
+				if bi, ok := info.Uses[id].(*types.Builtin); ok && bi.Name() == "panic" {
+					return true
+				}
+			}
+		}
+	}
+	return false
 }
